@@ -97,7 +97,7 @@ Qed.
 Lemma cachew_refines_stamp_reference_today : forall limit ops,
   forallb xx_in_scope ops = true ->
   cwx_run (cw_new limit C16Consts.cache_slots C16Consts.cache_wheel_interval_ns
-                  C16Consts.cache_rewrite_uses_move_timer) ops =
+                  C16Consts.cache_rewrite_uses_move_timer) [] ops =
   refwx_run C16Consts.cache_wheel_interval_ns (mkRefW (s_new limit) []) ops.
 Proof.
   intros limit ops H. destruct cache_wheel_params_ok as [Hn Hi].
